@@ -11,6 +11,8 @@ oracle argument too (its full ranking; paging inside a shard is `drop offset / t
 shard/shard.go) — ranking inside a shard is C03–C06.
 Core-only (linked into the driver).
 -/
+import SemaModel.C06.Model
+import SemaModel.C17.ValEq
 namespace Sema.C17
 
 /-! ### curateFailedPoints, line by line -/
@@ -129,53 +131,31 @@ def searchPoints {α} (sort : List α → List α) (heur : Nat → Nat → Nat) 
   let merged := if n > 1 then sort results else results
   some (merged.take limit)
 
-/-! ### the comparators of the merge (executable instances used by the driver) -/
+/-! ### the comparators of the merge
 
-/-- a value of a sort property after msgpack decoding: the harness uses int64 and string -/
-inductive Val
-  | int (i : Int)
-  | str (s : String)
-  deriving DecidableEq, Repr
+`ClusterNode.SearchPoints` re-sorts the concatenated shard answers with
+`cmp.Compare(b.HybridScore, a.HybridScore)` when no sort option is given and with
+`utils.SortSearchResults(results, sr.Sort)` otherwise — the SAME function a shard sorts its own answer
+with.  Its comparison closure is C06's `sortCmp` (`SemaModel/C06/Model.lean`: `AccessNestedProperty`,
+missing last, direction, `CompareAny` = `cmpAny` over every kind msgpack decodes into: the integers by
+encoded width and signedness, float32 / float64 incl. NaN, −0, ±Inf, strings, nil, bool, slices, maps),
+imported here, not copied: what C06 proves about it holds for the cluster's merge verbatim. -/
 
-/-- `utils.CompareAny`: different kinds compare by `reflect.Kind` (Int64 = 6 < String = 24) -/
-def cmpVal : Val → Val → Int
-  | .int a, .int b => if a < b then -1 else if a = b then 0 else 1
-  | .str a, .str b => if a < b then -1 else if a = b then 0 else 1
-  | .int _, .str _ => -1
-  | .str _, .int _ => 1
-
-/-- one sort option of `utils.SortSearchResults` applied to the values of two results
-(`none` = property missing → last, whatever the direction) -/
-def cmp1 (desc : Bool) : Option Val → Option Val → Int
-  | some _, none => -1
-  | none, some _ => 1
-  | none, none => 0
-  | some x, some y => if desc then cmpVal y x else cmpVal x y
-
-/-- the comparison function of `utils.SortSearchResults`: the first sort option that does not
-compare equal decides -/
-def cmpKeys : List (Bool × Option Val × Option Val) → Int
-  | [] => 0
-  | (desc, a, b) :: rest =>
-    let r := cmp1 desc a b
-    if r ≠ 0 then r else cmpKeys rest
-
+/-- one search result as the cluster node sees it -/
 structure Hit where
   id : Nat
   /-- order-preserving integer image of the float32 hybrid score -/
   score : Int
-  keys : List (Option Val)
+  /-- `DecodedData`: the selected properties as msgpack decoded them (a result without a sort property
+  simply lacks the key) -/
+  data : Sema.C06.Doc
   deriving Repr, DecidableEq
 
 /-- `cmp.Compare(b.HybridScore, a.HybridScore) ≤ 0` -/
 def leScore (a b : Hit) : Bool := decide (b.score ≤ a.score)
 
-/-- the values of the sort properties, one per sort option (a result without the entry = property missing) -/
-def zip3 : List Bool → List (Option Val) → List (Option Val) → List (Bool × Option Val × Option Val)
-  | [], _, _ => []
-  | d :: ds, as, bs => (d, as.head?.join, bs.head?.join) :: zip3 ds as.tail bs.tail
-
-def leKeys (opts : List Bool) (a b : Hit) : Bool := decide (cmpKeys (zip3 opts a.keys b.keys) ≤ 0)
+/-- the comparison closure of `utils.SortSearchResults(results, sr.Sort)` on two results, `≤ 0` -/
+def leKeys (opts : List Sema.C06.SortOpt) (a b : Hit) : Bool := decide (Sema.C06.sortCmp opts a.data b.data ≤ 0)
 
 /-! ### internalRoute: the retry loop around one remote call (cluster/rpc.go)
 
